@@ -1,5 +1,5 @@
 (* Properties_C20.v — property C20 (API-specific diagnostics are about the real API) for modelled checkers. *)
-From GC Require Import Base GoAst Model_Checkers Proofs_Checkers Proofs_Witnesses.
+From GC Require Import Base GoAst Model_Checkers Model_Checkers_Prefix Proofs_Checkers Proofs_Witnesses.
 
 Theorem C20_flagName_real : forall f w, In w (warnings (run_flagName f)) -> w_callee w = OPkgName "flag" /\ is_real w = true.
 Proof. exact flagName_real. Qed.
@@ -29,6 +29,14 @@ Theorem C20_filepathJoin_real_refuted : exists f, wf f = true /\ exists w, In w 
 Proof. exact filepathJoin_real_refuted. Qed.
 Print Assumptions C20_filepathJoin_real_refuted.
 
+Theorem C20_truncateCmp_real_refuted : exists f, wf f = true /\ exists w, In w (warnings (run_truncateCmp true f)) /\ is_real w = false.
+Proof. exact truncateCmp_real_refuted. Qed.
+Print Assumptions C20_truncateCmp_real_refuted.
+
+Theorem C20_nilValReturn_real_refuted : exists f, wf f = true /\ exists w, In w (warnings (run_nilValReturn f)) /\ is_real w = false.
+Proof. exact nilValReturn_real_refuted. Qed.
+Print Assumptions C20_nilValReturn_real_refuted.
+
 Theorem C20_newDeref_real_partial : forall f, all_nodes_sat (g_no_namesake_bare "new") f -> forall w, In w (warnings (run_newDeref f)) -> is_real w = true.
 Proof. exact (fun f G w H => newDeref_real_partial f w G H). Qed.
 Print Assumptions C20_newDeref_real_partial.
@@ -37,8 +45,6 @@ Theorem C20_flagName_silent_on_namesakes : wf Witnesses.ns_flag_pkgvar = true /\
 Proof. exact flagName_silent_on_namesakes. Qed.
 Print Assumptions C20_flagName_silent_on_namesakes.
 
-(* link to C01: the crash witnesses of appendCombine/appendAssign, newDeref and the regexp checkers are namesakes *)
-Theorem C20_namesake_is_root_of_crash : forallb (g_no_namesake_bare "append") (all_nodes Witnesses.w_append_zero) = false /\ forallb (g_no_namesake_bare "new") (all_nodes Witnesses.w_new_zero) = false /\ forallb (g_no_namesake_qual "regexp" "regexp") (all_nodes Witnesses.w_regexp_zero) = false.
-Proof. exact (conj append_crash_witness_is_namesake (conj new_crash_witness_is_namesake regexp_crash_witness_is_namesake)). Qed.
-Print Assumptions C20_namesake_is_root_of_crash.
-
+Example C20_no_namesake_satisfiable :
+  wf Witnesses.ns_filepath_alias = true /\ forallb (g_no_namesake_bare "new") (all_nodes Witnesses.ns_filepath_alias) = true.
+Proof. exact no_namesake_satisfiable. Qed.
